@@ -518,7 +518,7 @@ class LimitedStream(io.RawIOBase):
             Handle case where wrapped stream returns fewer bytes than requested.
         """
         if not self.is_exhausted:
-            return self.readall()
+            return self._read_to_limit()
 
         return b""
 
@@ -575,6 +575,16 @@ class LimitedStream(io.RawIOBase):
             self.on_exhausted()
             return b""
 
+        data = self._read_to_limit()
+
+        # If a maximum was reached, what was read is not known to be the
+        # complete data, the stream may continue.
+        if self._limit_is_max and self.is_exhausted:
+            self.on_exhausted()
+
+        return data
+
+    def _read_to_limit(self) -> bytes:
         out = bytearray()
 
         # The parent implementation uses "while True", which results in an extra read.
